@@ -158,11 +158,11 @@ func clampIn(info *types.Info, list []ast.Stmt, iv types.Object) ast.Expr {
 		if len(ibody) != 1 {
 			continue
 		}
-		cond, ok := ifs.Cond.(*ast.BinaryExpr)
-		if !ok || (cond.Op != token.GTR && cond.Op != token.GEQ) {
+		condX, condY, _, ok := ordCmp(ifs.Cond)
+		if !ok {
 			continue
 		}
-		cid, ok := ast.Unparen(cond.X).(*ast.Ident)
+		cid, ok := ast.Unparen(condX).(*ast.Ident)
 		if !ok || info.ObjectOf(cid) != info.ObjectOf(x) {
 			continue
 		}
@@ -171,10 +171,10 @@ func clampIn(info *types.Info, list []ast.Stmt, iv types.Object) ast.Expr {
 			continue
 		}
 		sid, ok := set.Lhs[0].(*ast.Ident)
-		if !ok || info.ObjectOf(sid) != info.ObjectOf(x) || types.ExprString(set.Rhs[0]) != types.ExprString(cond.Y) {
+		if !ok || info.ObjectOf(sid) != info.ObjectOf(x) || types.ExprString(set.Rhs[0]) != types.ExprString(condY) {
 			continue
 		}
-		return cond.Y
+		return condY
 	}
 	return nil
 }
